@@ -1182,6 +1182,27 @@ class C11(Prop):
                 lines.append(case_line(f'm{n}p', main, inp, defs=[d]))
                 lines.append(case_line(f'm{n}c', main, inp, defs=[erase_memo(d)]))
                 n += 1
+        # a memoized parser that SUCCEEDS while emitting non-fatal errors / feeding the inspector, abandoned by the enclosing
+        # choice and visited again at the same position — with its output needed, and with its output discarded (check mode):
+        # whatever the table remembers, the second visit must report what a fresh run reports
+        A_, B_, E_ = ('just', [gen.A]), ('just', [gen.B]), ('just', [gen.EA])
+        for x in [('any',), A_, ('oneof', [gen.A, gen.B]), ('then', ('any',), ('ornot', B_)), ('collect', 'vec', ('rep', A_, 1, None))]:
+            # (validate emitters and inspector observations; a recovery strategy UNDER memoized() is outside the property's class
+            # — it reads the pending error that memoized() shelters, see c11 header / `cex_recovery`)
+            for em in gen.EMITTERS + [lambda a: ('mwstate', a)]:
+                d = ('memo', 52, em(x))
+                c = ('call', 0)
+                mains = [('or', ('ithen', c, B_), ('ithen', c, A_)), ('or', ('then', c, B_), ('ithen', c, A_)),
+                         ('or', ('ithen', c, B_), ('then', c, A_)), ('or', ('then', c, B_), ('then', c, E_)),
+                         ('choices', [('ithen', c, B_), ('then', ('ornot', ('ignored', c)), E_), ('to', ('vnat', 5), c)]),
+                         ('then', ('rewind', c), ('ignored', c)), ('then', ('rewind', ('ignored', c)), c),
+                         ('andis', c, ('ignored', c)), ('then', ('ornot', ('then', c, ('cfail', 3))), ('theni', ('empty',), c)),
+                         ('collect', 'vec', ('rep', ('or', ('ithen', c, B_), ('ithen', c, A_)), 0, None))]
+                for main in mains:
+                    for mode in ('parse', 'check'):
+                        lines.append(case_line(f'm{n}p', main, inp, defs=[d], mode=mode))
+                        lines.append(case_line(f'm{n}c', main, inp, defs=[erase_memo(d)], mode=mode))
+                        n += 1
         # left recursion: must terminate (no plain counterpart: the unmemoized grammar overflows the stack)
         linp = inputs_all(4 if tier == 'quick' else 6, [120, 43, 121, 45])
         for i, (defs, main) in enumerate(LEFT_REC):
